@@ -314,6 +314,9 @@ def run(chk, repo):
         ok = False
         if last is not None:
             v = last.value
+            if isinstance(v, ast.Name):
+                from .c05 import _fold_value
+                v = _fold_value(pw, v.id) or v
             if isinstance(v, ast.Call) and canon_call(mod, v) == "functools.reduce" and canon(mod, v.args[0]) == "operator.mul":
                 seq = v.args[1]
                 if isinstance(seq, ast.BinOp) and isinstance(seq.op, ast.Add) and isinstance(seq.left, ast.ListComp) \
